@@ -191,6 +191,9 @@ ListGroups7 ==
    [list |-> <<Agg("avg", "m"), Agg("avg", "m")>>, group |-> <<>>],
    [list |-> <<Agg("avg", "m"), ColItem("", "p", ""), Agg("count", ""), Agg("avg", "m"), Agg("count", "")>>, group |-> <<Ref("", "p")>>],
    [list |-> <<Agg("countcol", "n"), Agg("avg", "q"), Agg("countcol", "n"), Agg("avg", "m"), Agg("avg", "q")>>, group |-> <<>>],
+   \* AVG over the column with NULLs (refused, or the mean of the other values - never with a NULL counted as a number)
+   [list |-> <<Agg("avg", "n")>>, group |-> <<>>], [list |-> <<Agg("count", ""), Agg("avg", "n")>>, group |-> <<>>],
+   [list |-> <<ColItem("", "p", ""), Agg("avg", "n"), Agg("count", "")>>, group |-> <<Ref("", "p")>>],
    \* a grouping column that is not in the select list (GroupBad: to be refused, never ignored)
    [list |-> <<Agg("count", "")>>, group |-> <<Ref("", "p")>>],
    [list |-> <<ColItem("", "p", ""), Agg("avg", "m")>>, group |-> <<Ref("", "p"), Ref("", "q")>>],
